@@ -33,7 +33,7 @@ class Reader(object):
         except core.Timeout:
             raise
         except BaseException as e:  # noqa
-            r = ('exc', type(e).__name__, None)
+            r = ('exc', core.ename(e), None)
         self.cache[buf] = r
         return r
 
@@ -193,7 +193,7 @@ def _big_worker(i):
     try:
         expected = canon.dump(cls.parse_exact_size(rec), eq=True)
     except Exception as e:  # noqa
-        acc.violation('%s:big:complete_raises:%s' % (layer, type(e).__name__), 'the composed record %s is rejected by '
+        acc.violation('%s:big:complete_raises:%s' % (layer, core.ename(e)), 'the composed record %s is rejected by '
                       'its own parser' % label, {'layer': layer, 'big': label, 'clause': 'complete_raises'})
         return acc.result()
     points = set(range(0, 9)) | {end - k for k in range(0, 5)} | {end + k for k in range(1, 4)} | {len(S)}
